@@ -1,4 +1,5 @@
 //@include prelude/head.rs
+broadcast use {ax::axiom_string_eq_spec, ax::axiom_string_obeys_eq, ax::axiom_string_to_string};
 //@props C03 C14 C20 C01 C02 C04
 //@include regions/op_types.rs
 //@include vocab/syncmodel.rs
